@@ -199,21 +199,27 @@ theorem negotiateOne_nf (c : Cached) (res : NegRes) (s : Sess) : NoFuel (negotia
       · trivial
       · split <;> trivial
 
-theorem select_nf (cfg : FCfg) (doTLS listReq : Bool) (cache : List Cached) :
-    ∀ orc s, NoFuel (select cfg doTLS listReq cache orc s) := by
+theorem finishList_nf (cfg : FCfg) (skipped : List Cached) (s : Sess) : NoFuel (finishList cfg skipped s) := by
+  unfold finishList
+  split <;> trivial
+
+theorem select_nf (cfg : FCfg) (doTLS listReq : Bool) (cache skipped : List Cached) :
+    ∀ orc s, NoFuel (select cfg doTLS listReq cache skipped orc s) := by
   intro orc
   induction orc with
   | nil =>
     intro s
     unfold select
-    split <;> trivial
+    split
+    · exact finishList_nf cfg skipped s
+    · trivial
   | cons e orc' ih =>
     intro s
     obtain ⟨id, res⟩ := e
     unfold select
     generalize pickSet cfg doTLS cache s = al
     split
-    · trivial
+    · exact finishList_nf cfg skipped s
     · dsimp only
       split
       · trivial
@@ -241,13 +247,13 @@ theorem negotiateFeatures_nf (cfg : FCfg) (first : Bool) (s : Sess) : NoFuel (ne
       · trivial
       · split
         · trivial
-        · exact select_nf cfg _ _ _ _ s1
+        · exact select_nf cfg _ _ _ _ _ s1
 
-theorem select_lt (cfg : FCfg) (doTLS listReq : Bool) (cache : List Cached) (orc : List (Nat × NegRes)) (s : Sess)
+theorem select_lt (cfg : FCfg) (doTLS listReq : Bool) (cache skipped : List Cached) (orc : List (Nat × NegRes)) (s : Sess)
     (N : Nat) (h : meas s < N) :
-    (select cfg doTLS listReq cache orc s).Both (fun _ s' => meas s' < N) (fun _ => True) := by
-  have hs := select_all (M_io (meas s)) (M_neg (meas s)) cfg doTLS listReq cache orc s (Nat.le_refl _)
-  cases hh : select cfg doTLS listReq cache orc s with
+    (select cfg doTLS listReq cache skipped orc s).Both (fun _ s' => meas s' < N) (fun _ => True) := by
+  have hs := select_all (M_io (meas s)) (M_neg (meas s)) cfg doTLS listReq cache skipped orc s (Nat.le_refl _)
+  cases hh : select cfg doTLS listReq cache skipped orc s with
   | stop w s' => trivial
   | ok out s' =>
     rw [hh] at hs
@@ -272,7 +278,7 @@ theorem negotiateFeatures_dec (cfg : FCfg) (first : Bool) (s : Sess) :
       · exact hlt
       · split
         · trivial
-        · exact select_lt cfg _ _ _ _ s1 (meas s) hlt
+        · exact select_lt cfg _ _ _ _ _ s1 (meas s) hlt
 
 theorem step_hdr_all (fuel : Nat) (s : Sess) :
     (if s.doRestart then
